@@ -695,6 +695,12 @@ pub struct DsSpec {
     /// (0 = no, 1 = IRI-named graph, 2 = blank-named graph): chiral structures
     #[serde(default)]
     pub mirror: u8,
+    /// also assert some arcs (selected by the bit mask, arc k <-> bit k mod 8) in a further graph
+    /// (0 default, 1 <g1>, 2 <g2>, 3 a blank graph name, 4 the graph named by the arc's own subject):
+    /// the same triple in several graphs, i.e. a blank node related to another one through several
+    /// quads with the same predicate and position
+    #[serde(default)]
+    pub also: Vec<(u8, u8)>,
 }
 
 fn pred_iri(i: u8) -> &'static str {
@@ -725,8 +731,20 @@ impl DsSpec {
                 for i in 0..n {
                     nodes.push(format!("{prefix}{i}"));
                 }
-                for (a, b) in &arcs {
+                for (k, (a, b)) in arcs.iter().enumerate() {
                     out.push(MQ::new(MT::bn(format!("{prefix}{a}")), MT::iri(pred_iri(c.pred)), MT::bn(format!("{prefix}{b}")), g.clone()));
+                    for (mask, sel) in &self.also {
+                        if (mask >> (k % 8)) & 1 == 1 {
+                            let ag = match sel % 5 {
+                                0 => None,
+                                1 => Some(MT::iri("http://x/g1")),
+                                2 => Some(MT::iri("http://x/g2")),
+                                3 => Some(MT::bn("alsoG")),
+                                _ => Some(MT::bn(format!("{prefix}{a}"))),
+                            };
+                            out.push(MQ::new(MT::bn(format!("{prefix}{a}")), MT::iri(pred_iri(c.pred)), MT::bn(format!("{prefix}{b}")), ag));
+                        }
+                    }
                     if ci == 0 && self.mirror % 3 != 0 {
                         let mg = if self.mirror % 3 == 1 { MT::iri("http://x/g2") } else { MT::bn("mirrorG") };
                         out.push(MQ::new(MT::bn(format!("{prefix}{b}")), MT::iri(pred_iri(c.pred)), MT::bn(format!("{prefix}{a}")), Some(mg)));
@@ -758,6 +776,9 @@ impl DsSpec {
         let mut v: Vec<String> = self.comps.iter().map(|c| c.sh.family()).collect();
         if self.mirror % 3 != 0 {
             v.push("mirrored-in-other-graph".into());
+        }
+        if self.also.iter().any(|(m, _)| *m != 0) {
+            v.push("arcs-repeated-in-other-graphs".into());
         }
         v
     }
@@ -831,8 +852,9 @@ pub fn ds_strategy(max_nodes: usize) -> BoxedStrategy<DsSpec> {
         2 => (0..32usize, 0..2u8, 0..32usize, any::<bool>()).prop_map(|(a, p, b, g)| Deco::Arc(a, p, b, g)),
         1 => (0..4u8, 0..2u8, ground_object()).prop_map(|(s, p, o)| Deco::Ground(s, p, o)),
     ];
-    (prop::collection::vec(comp, 1..=3), prop_oneof![2 => Just(vec![]).boxed(), 3 => prop::collection::vec(deco, 0..=4).boxed()], prop_oneof![8 => Just(0u8), 1 => Just(1u8), 1 => Just(2u8)])
-        .prop_map(move |(mut comps, decos, mirror)| {
+    let also = prop_oneof![3 => Just(vec![]).boxed(), 2 => prop::collection::vec((any::<u8>(), 0..5u8), 1..=2).boxed()];
+    (prop::collection::vec(comp, 1..=3), prop_oneof![2 => Just(vec![]).boxed(), 3 => prop::collection::vec(deco, 0..=4).boxed()], prop_oneof![8 => Just(0u8), 1 => Just(1u8), 1 => Just(2u8)], also)
+        .prop_map(move |(mut comps, decos, mirror, also)| {
             // bound the number of blank nodes
             let mut total = 0usize;
             comps.retain_mut(|c| {
@@ -847,7 +869,7 @@ pub fn ds_strategy(max_nodes: usize) -> BoxedStrategy<DsSpec> {
                 total += per * c.copies.max(1) as usize;
                 true
             });
-            DsSpec { comps, decos, mirror }
+            DsSpec { comps, decos, mirror, also }
         })
         .boxed()
 }
